@@ -17,7 +17,7 @@ def showErr : Err → String
   | .notPrivExtKey => "notprivextkey" | .tooManyAddresses => "toomanyaddresses" | .database => "database"
   | .noManager => "nomanager" | .panic => "panic" | .noTx => "notx" | .txOpen => "txopen"
   | .alreadyExists => "alreadyexists" | .noExist => "noexist" | .scopeNotFound => "scopenotfound"
-  | .notScript => "notscript" | .notPubKey => "notpubkey"
+  | .notScript => "notscript" | .notPubKey => "notpubkey" | .blockNotFound => "blocknotfound"
 
 def showKey : AKey → String
   | .chain a b i => s!"c:{a}:{b}:{i}"
@@ -43,6 +43,7 @@ def showQ : QRes → String
 
 def showRes : Res → String
   | .ok => "ok"
+  | .err .panic => "panic"
   | .err e => s!"err {showErr e}"
   | .acct n => s!"acct {n}"
   | .keys l => "keys " ++ joinWith "," (l.map showKey)
@@ -212,6 +213,12 @@ def step (ds : DState) (line : String) : DState × String :=
       match parseOp cmd rest with
       | none => (ds, "bad-op")
       | some op =>
+        -- harness guard: `newacct … expect=n` is only executed when the next account number is n
+        -- (the key material of an account is a function of its number, chosen by the generator)
+        let skip := match op, nat? rest "expect" with
+          | .newAccount sc _ _, some n => (ds.s.disk.scopes sc).lastAcct + 1 != n
+          | _, _ => false
+        if skip then (ds, "skipped") else
         let r := AddrLock.step ds.s op
         ({ ds with s := r.1 }, showRes r.2)
 
